@@ -463,7 +463,7 @@ class Check:
         # evidence/ describes runs against /repo itself; a run against a scratch checkout (VERIF_REPO, used to try
         # breaking changes) or a replay must not overwrite it
         evdir = os.path.join(ROOT, "evidence")
-        if os.path.realpath(REPO) != os.path.realpath("/repo") or self.replay:
+        if os.path.realpath(REPO) != os.path.realpath("/repo") or self.replay or os.environ.get("VERIF_SWEEP") or os.environ.get("VERIF_COVERAGE"):
             evdir = os.path.join(BUILD, "evidence_scratch"); os.makedirs(evdir, exist_ok=True)
         with open(os.path.join(evdir, self.pid + ".json"), "w") as f:
             json.dump(ev, f, indent=1, default=str)
